@@ -226,7 +226,20 @@ int vm_pthread_cond_wait(pthread_cond_t *c, pthread_mutex_t *m) {
    * caller blocks in and havocs the protected data to any state other threads may leave behind; the caller continues as
    * if woken, with the mutex re-acquired */
   VASSERT(vm_mutex_owner(mi) == vm_self + 1, "cond_wait: called with the mutex owned by the caller");
+#ifdef VM_CW_RELEASE
+  /* sequential emulation of the blocking point (C03 seq_wait_releases_via_api): the platform mutex is released, the hook
+   * runs ANOTHER context (it switches vm_self) through the public API, then the waiter re-acquires */
+#define X(k) if (mi == k) vm_mtx_owner_##k = 0;
+  VM_FOR_M(X)
+#undef X
+#endif
   VM_CW_HOOK(ci, mi);
+#ifdef VM_CW_RELEASE
+#define X(k) if (mi == k) { VASSERT(vm_mtx_owner_##k == 0, "cond_wait: the other context left the mutex free, the waiter can re-acquire"); \
+                           VASSUME(vm_mtx_owner_##k == 0); vm_mtx_owner_##k = vm_self + 1; }
+  VM_FOR_M(X)
+#undef X
+#endif
   return 0;
 #endif
   /* step 1 (atomic): register as waiter, release the mutex; deadlock check of the state entered */
